@@ -67,32 +67,28 @@ func fieldVars(info *types.Info, fd *ast.FuncDecl) []fieldVar {
 
 // mentionsExported: the expression tests the exportedness of field variable v.
 func mentionsExported(info *types.Info, e ast.Expr, v types.Object) bool {
-	found := false
-	ast.Inspect(e, func(n ast.Node) bool {
-		switch x := n.(type) {
-		case *ast.BinaryExpr:
-			// f.PkgPath == ""
-			if x.Op == token.EQL {
-				for _, side := range [][2]ast.Expr{{x.X, x.Y}, {x.Y, x.X}} {
-					if sel, ok := eng.Unparen(side[0]).(*ast.SelectorExpr); ok && sel.Sel.Name == "PkgPath" {
-						if id, ok := eng.Unparen(sel.X).(*ast.Ident); ok && objOf(info, id) == v {
-							if s, ok := constStringOf(info, side[1]); ok && s == "" {
-								found = true
-							}
-						}
+	// e is an atom known to hold: f.PkgPath == "" (either way round) or f.IsExported()
+	isV := func(x ast.Expr) bool {
+		id, ok := eng.Unparen(x).(*ast.Ident)
+		return ok && objOf(info, id) == v
+	}
+	switch x := eng.Unparen(e).(type) {
+	case *ast.BinaryExpr:
+		if x.Op == token.EQL {
+			for _, side := range [][2]ast.Expr{{x.X, x.Y}, {x.Y, x.X}} {
+				if sel, ok := eng.Unparen(side[0]).(*ast.SelectorExpr); ok && sel.Sel.Name == "PkgPath" && isV(sel.X) {
+					if s, ok := constStringOf(info, side[1]); ok && s == "" {
+						return true
 					}
 				}
 			}
-		case *ast.CallExpr:
-			if sel, ok := x.Fun.(*ast.SelectorExpr); ok && sel.Sel.Name == "IsExported" {
-				if id, ok := eng.Unparen(sel.X).(*ast.Ident); ok && objOf(info, id) == v {
-					found = true
-				}
-			}
 		}
-		return true
-	})
-	return found
+	case *ast.CallExpr:
+		if sel, ok := x.Fun.(*ast.SelectorExpr); ok && sel.Sel.Name == "IsExported" && isV(sel.X) {
+			return true
+		}
+	}
+	return false
 }
 
 func runC16(p *core.Program, r *core.Report) {
@@ -140,11 +136,11 @@ func publications(info *types.Info, fd *ast.FuncDecl, fv fieldVar) []publication
 			return true
 		}
 		stack = append(stack, n)
+		// what holds here: enclosing tests and earlier guard clauses, as atoms
 		var guards []ast.Expr
-		for _, anc := range stack {
-			if is, ok := anc.(*ast.IfStmt); ok && ast.Node(is) != n {
-				guards = append(guards, is.Cond)
-			}
+		switch n.(type) {
+		case *ast.AssignStmt, *ast.IfStmt:
+			guards = eng.FactsAt(fv.loop.Body, n)
 		}
 		switch x := n.(type) {
 		case *ast.AssignStmt:
@@ -174,7 +170,7 @@ func publications(info *types.Info, fd *ast.FuncDecl, fv fieldVar) []publication
 				return true
 			})
 			if succeeds {
-				out = append(out, publication{x, "successful lookup of " + fv.name + ".Name", append(append([]ast.Expr{}, guards...), x.Cond)})
+				out = append(out, publication{x, "successful lookup of " + fv.name + ".Name", append(append([]ast.Expr{}, guards...), eng.Conjuncts(x.Cond, false)...)})
 			}
 		}
 		return true
@@ -337,25 +333,43 @@ func c16Classes(p *core.Program, r *core.Report) {
 	// resolver must try the method first
 	if cfd := p.FuncDecl("conf", "", "CreateTypesTable"); cfd != nil {
 		cinfo := p.Pkg("conf").TypesInfo
-		fieldsPos, methodPos := 0, 0
+		// order of "fields stored" and "methods stored" along one execution: within the switch
+		// clause that stores the struct's fields (clauses of a switch are alternatives, their
+		// textual order means nothing), else within the whole body
 		unexportedHelper := func(fn *types.Func, _ *ast.FuncDecl) bool { return !fn.Exported() }
-		eng.InspectInlined(p, cinfo, p.Pkg("conf").Types, cfd.Body, 2, unexportedHelper, func(n ast.Node, _ *eng.InlineCtx, seq int) bool {
-			switch x := n.(type) {
-			case *ast.CallExpr:
-				if fn := eng.CalleeOf(cinfo, x); fn != nil && fn.Name() == "FieldsFromStruct" && fieldsPos == 0 {
-					fieldsPos = seq
-				}
-			case *ast.CompositeLit:
-				if t := cinfo.TypeOf(x); t != nil && strings.HasSuffix(t.String(), "conf.Tag") && methodPos == 0 {
-					for _, el := range x.Elts {
-						if kv, ok := el.(*ast.KeyValueExpr); ok && eng.ExprStr(kv.Key) == "Method" {
-							methodPos = seq
+		orderIn := func(root ast.Node) (int, int) {
+			fieldsPos, methodPos := 0, 0
+			eng.InspectInlined(p, cinfo, p.Pkg("conf").Types, root, 2, unexportedHelper, func(n ast.Node, _ *eng.InlineCtx, seq int) bool {
+				switch x := n.(type) {
+				case *ast.CallExpr:
+					if fn := eng.CalleeOf(cinfo, x); fn != nil && fn.Name() == "FieldsFromStruct" && fieldsPos == 0 {
+						fieldsPos = seq
+					}
+				case *ast.CompositeLit:
+					if t := cinfo.TypeOf(x); t != nil && strings.HasSuffix(t.String(), "conf.Tag") && methodPos == 0 {
+						for _, el := range x.Elts {
+							if kv, ok := el.(*ast.KeyValueExpr); ok && eng.ExprStr(kv.Key) == "Method" {
+								methodPos = seq
+							}
 						}
 					}
+				}
+				return true
+			})
+			return fieldsPos, methodPos
+		}
+		fieldsPos, methodPos := 0, 0
+		ast.Inspect(cfd.Body, func(n ast.Node) bool {
+			if cc, ok := n.(*ast.CaseClause); ok && fieldsPos == 0 {
+				if f, m := orderIn(cc); f > 0 {
+					fieldsPos, methodPos = f, m
 				}
 			}
 			return true
 		})
+		if fieldsPos == 0 {
+			fieldsPos, methodPos = orderIn(cfd.Body)
+		}
 		staticMethodWins := fieldsPos > 0 && methodPos > fieldsPos
 		_, ffd := resolverClasses(p, "FetchFn")
 		var mPos, otherPos token.Pos
